@@ -208,6 +208,11 @@ func c14NewSandbox(withFiles bool) string {
 		panic(err)
 	}
 	top, _ = filepath.EvalSymlinks(top)
+	c14FillSandbox(top, withFiles)
+	return top
+}
+
+func c14FillSandbox(top string, withFiles bool) {
 	for _, d := range []string{"/T1/T2/outer/root", "/T1/T2/outer/recflv", "/T1/T2/outer/rects"} {
 		if err := os.MkdirAll(top+d, 0777); err != nil {
 			panic(err)
@@ -221,7 +226,6 @@ func c14NewSandbox(withFiles bool) string {
 			}
 		}
 	}
-	return top
 }
 
 // every file and directory below top that was not there in the empty sandbox
@@ -267,10 +271,13 @@ func c14ListingTok(top string, canon func(string) string) string {
 }
 
 func c14HlsServe(a []string) string {
+	// one handler per process (it starts a ticker goroutine); its sandbox exists only during the call
 	c14ServeOnce.Do(func() {
-		c14ServeTop = c14NewSandbox(true)
+		c14ServeTop = filepath.Join(os.TempDir(), fmt.Sprintf("lalverif-c14-serve-%d", os.Getpid()))
 		c14Handler = hls.NewServerHandler(c14ServeTop+"/T1/T2/outer/root", "/hls/", "", 0, nil)
 	})
+	c14FillSandbox(c14ServeTop, true)
+	defer os.RemoveAll(c14ServeTop)
 	uri := c14Str(a[1])
 	req := httptest.NewRequest("GET", "http://127.0.0.1:8080/", nil)
 	req.RequestURI = uri
@@ -525,7 +532,13 @@ func c14SmSub(a []string) string {
 			}
 		}
 	}
-	return fmt.Sprintf("%s %s %s", code, tokNum(uint64(listed)), tokBool(conn.numWrites() > 0))
+	wrote := conn.numWrites() > 0
+	// kick it: only an attached session can be found, and finding it disconnects it
+	kick := sm.CtrlKickSession(base.ApiCtrlKickSessionReq{StreamName: stream, SessionId: id})
+	conn.mu.Lock()
+	closed := conn.closed
+	conn.mu.Unlock()
+	return fmt.Sprintf("%s %s %s %s %s", code, tokNum(uint64(listed)), tokBool(wrote), tokBool(kick.ErrorCode == base.ErrorCodeSucc), tokBool(closed))
 }
 
 func init() {
